@@ -411,3 +411,95 @@ def ob_restart_finalises(ending: int, extra: int) -> bool:
     if ending == 2:
         return "step failed for good" in (again["error"] or "")
     return True
+
+
+# ----------------------------------------------------------------------------------------------- crash at any store write
+
+from vlib.h_restart import run_first_recording, run_restarted_from_writes, ticks_in  # noqa: E402
+
+
+class Resp13b(Event):
+    pass
+
+
+def _make_w(kind: int):
+    """0 chain, 1 chain whose s1 fails once (retry after 1 s), 2 fan-out + collect, 3 a step parked in wait_for_event(timeout=1)
+    that turns the TimeoutError into its result (the run is announced idle while it waits: the handler row is stamped and un-stamped)"""
+    if kind <= 2:
+        return _make(kind, 1 if kind == 1 else 0, 1 if kind == 1 else 0)
+
+    class WaitT(Workflow):
+        @step
+        async def s0(self, ctx: Context, ev: StartEvent) -> StopEvent:
+            import asyncio
+
+            try:
+                await ctx.wait_for_event(Resp13b, waiter_id="w", timeout=1)
+                return StopEvent(result="answered")
+            except asyncio.TimeoutError:
+                return StopEvent(result="timeout")
+
+    return WaitT(timeout=None)
+
+
+_FIRSTW = {}
+
+
+def _first_w(kind: int):
+    if kind not in _FIRSTW:
+        _FIRSTW[kind] = native(run_first_recording, lambda: _make_w(kind))
+    return _FIRSTW[kind]
+
+
+def n_writes(kind: int) -> int:
+    return len(_first_w(conc(kind, 0, 3))["writes"])
+
+
+def prefix_has_tick(kind: int, k: int) -> bool:
+    """the statement is about stops 'after any persisted tick': a prefix without a tick is a start request that never took off"""
+    kind, k = conc(kind, 0, 3), conc(k, 1, 40)
+    return len(native(ticks_in, _first_w(kind)["writes"][:k])) > 0
+
+
+def write_prefix_known(kind: int, k: int) -> bool:
+    """Classes of KF-C13-1/2 and KF-C14-2 at store-write granularity: among the ticks of the first k writes there is a step's
+    completion whose emitted event has its own TickAddEvent outside them, or a wait_for_event timer was armed and its
+    TickWaiterTimeout is not among them (the timer lived only in the dead process' heap)."""
+    kind, k = conc(kind, 0, 3), conc(k, 1, 40)
+    writes = _first_w(kind)["writes"]
+    full = native(ticks_in, writes)
+    kt = len(native(ticks_in, writes[:k]))
+    if kind <= 2:
+        for j, c in native(_causes, full):
+            if j >= kt and c < kt:
+                return True
+        return False
+    armed = [i for i, t in enumerate(full[:kt]) if t.get("type") == "step_result" and any(r.get("type") == "add_waiter" for r in t.get("result", []))]
+    fired = [i for i, t in enumerate(full[:kt]) if t.get("type") == "waiter_timeout"]
+    return bool(armed) and not fired
+
+
+WMAX13 = 40
+
+
+@obligation(quick=300, thorough=900,
+            partitions_quick=[f"kind == {a} and k <= 12" for a in range(4)] + [f"kind == {a} and k > 12" for a in range(4)],
+            partitions_thorough=[f"kind == {a} and k % 4 == {m}" for a in range(4) for m in range(4)],
+            what="whole in-process server stack, crash at ANY STORE WRITE: the first life's primitive store writes (handler-row upserts incl. idle "
+                 "stamps, tick appends, event appends) are recorded in order; a fresh store gets the first k of them (k symbolic), a fresh stack is "
+                 "started over it (service.start -> PersistenceDecorator._on_server_start): the run ends with the same status and result",
+            bounds={"workflows": "chain / chain with one retry (delay 1) / fan-out + collect / wait_for_event(timeout=1) under idle announcement",
+                    "k": "every prefix of the recorded writes that contains at least one tick (<= 40 writes)"})
+def ob_restart_any_write(kind: int, k: int) -> bool:
+    """
+    pre: 0 <= kind <= 3 and 1 <= k <= WMAX13 and k <= n_writes(kind) and prefix_has_tick(kind, k)
+    post: _
+    """
+    kind, k = conc(kind, 0, 3), conc(k, 1, WMAX13)
+    first = _first_w(kind)
+    if first["status"] != "completed":
+        return False
+    again = run_restarted_from_writes(lambda: _make_w(kind), first["writes"][:k], horizon=8)
+    if again["errors"] or again["loop_exceptions"]:
+        return False
+    return again["status"] == "completed" and again["result"] == first["result"]
